@@ -298,8 +298,9 @@ def considerPEL(uh: UserHeader, config: Config) -> bool:
     """
     if config.only or uh.isHidden() or not uh.isServiceable():
         # Ignore hidden/non-serviceable PELs check for the
-        # --plid and --src option and --id and --bmc-id
-        if config.plid or config.src or config.bmcID or config.pelID:
+        # --plid and --src/--src-exclude option and --id and --bmc-id
+        if config.plid or config.src or config.srcExcludeFile or \
+                config.bmcID or config.pelID:
             return True
         return False
 
